@@ -79,3 +79,144 @@ class EpollRemoteQueue(Unit):
         if f.get("tokens") != "0" and prog[2] == "end":
             return "model: a wake-up write is still owed: " + summary
         return None
+
+
+_ERRNO = {"EISDIR": 21, "EFAULT": 14}
+
+
+class EpollIoCancel(Unit):
+    """Projection of a k1_epoll_io run onto IoCancel for operation <opk> of the run.
+    Owned: the operation's state_ / completion_base::enqueued_ ('cenq') / done_op::enqueued_ ('denq') /
+    callbackCompleted_ ('cbdone': only the store and the load that sees 1), the syscalls on its
+    descriptor (readv/writev = 'io', epoll_ctl ADD/DEL, the epoll_wait that returns its pointer =
+    'deliver', the harness' STALE report), the enqueues of its two queue items onto remoteQueue_
+    (successful CAS -> 'rq ENQ') and the exchange by which the I/O thread takes them ('rq DEQ top'),
+    the linearisation points of its stop source (I/O thread: first lock = REG or an observed stop bit =
+    REG-INLINE, later locks = UNREG; stopper: the stop-bit CAS = SET), the peer's first successful
+    syscall on the other end of the pipe, and 'complete'.
+    Implementation thread -> model thread by role: I/O thread -> 0, but its take of the remote queue
+    -> 1 and its epoll_wait result -> 2 (alternatives of the loop); the thread calling start() -> 3;
+    peer -> 4; stopper -> 5."""
+    driver = "k1_epoll_io"; cfg = "shim17"; handler = "iocancel"
+    bound = {"quick": 2, "thorough": 3}
+    maxruns = {"quick": 1500, "thorough": 20000}
+    nrandom = {"quick": 150, "thorough": 2000}
+
+    def __init__(self, opk=0):
+        self.opk = opk
+        self.name = "io_epoll_context/IoCancel" + ("" if opk == 0 else "/op%d" % opk)
+
+    def programs(self, tier):
+        if self.opk == 1:
+            # second operation on the same descriptor after a cancelled one (only meaningful once
+            # the first leaves no stale state: tied in the fixed variant only)
+            return [("r", "R", "p", "late", "reuse"), ("r", "L", "s", "late", "reuse")] if VARIANT == "fixed" else []
+        progs = []
+        for k in "rw":
+            progs += [(k, "R", "n", "y"), (k, "R", "s", "y"), (k, "L", "s", "y"), (k, "R", "p", "late"),
+                      (k, "L", "p", "n"), (k, "R", "s", "n")]
+        progs += [("r", "R", "n", "0"), ("w", "L", "n", "0"), ("r", "R", "s", "0"), ("r", "R", "p", "y"),
+                  ("r", "R", "n", "dir"), ("r", "L", "n", "fault"), ("r", "R", "s", "fault"),
+                  ("r", "R", "p", "late", "reuse"), ("r", "L", "s", "late", "reuse")]
+        if tier != "quick":
+            progs += [("w", "R", "p", "y"), ("w", "L", "s", "n"), ("r", "L", "n", "y"), ("w", "L", "n", "y"),
+                      ("r", "L", "s", "dir"), ("w", "R", "s", "late", "reuse")]
+        return progs
+
+    def params(self, prog):
+        kind, start, stop, peer = prog[0], prog[1], prog[2], prog[3]
+        if self.opk == 1:
+            return dict(kind=kind, start=start, pre=0, nstop=0, ready0=0, fail="-", pollable=1)
+        return dict(kind=kind, start=start, pre=1 if stop == "p" else 0, nstop=1 if stop == "s" else 0,
+                    ready0=1 if peer in ("0", "fault") else 0,
+                    fail=str(_ERRNO["EISDIR"]) if peer == "dir" else str(_ERRNO["EFAULT"]) if peer == "fault" else "-",
+                    pollable=0 if peer == "dir" else 1)
+
+    def model_args(self, prog):
+        p = self.params(prog)
+        return "%s %s %s %d %d %d %s %d" % (VARIANT, p["kind"], p["start"], p["pre"], p["nstop"], p["ready0"],
+                                           p["fail"], p["pollable"])
+
+    def project(self, prog, events):
+        k = self.opk
+        opn, src, comp, done = "op%d." % k, "src%d" % k, "COMP%d" % k, "DONE%d" % k
+        stop, peer = prog[2], prog[3]
+        stopper_t = 2 if stop == "s" else None
+        peer_t = (3 if stop == "s" else 2) if peer in ("y", "late") else None
+        def role(t):
+            return 0 if t == 0 else 5 if t == stopper_t else 4 if t == peer_t else 3
+        out = []
+        reg_done = False
+        started = False     # operation k has been started
+        peer_seen = False
+        for e in events:
+            m = re.match(r"t(\d+) (\S+) ?(.*)$", e)
+            t, n, r = int(m.group(1)), m.group(2), m.group(3)
+            if n == "!start" and r == "op%d" % k:
+                started = True
+            if n.startswith(opn):
+                f = n[len(opn):]
+                if f == "cbdone":
+                    if r.endswith(" 1"):
+                        out.append((role(t), "op.cbdone " + r))
+                else:
+                    out.append((role(t), "op.%s %s" % (f, r)))
+            elif n == src:
+                if t == 0:
+                    if re.match(r"C\.\S+ (0->2|1->3) ok", r):
+                        out.append((0, "src REG" if not reg_done else "src UNREG")); reg_done = True
+                    elif not reg_done and started:
+                        mm = re.match(r"L\.\S+ (\d+)$", r) or re.match(r"C\.\S+ (\d+)->\d+ fail", r)
+                        if mm and int(mm.group(1)) & 1:
+                            out.append((0, "src REG-INLINE")); reg_done = True
+                elif t == stopper_t and re.match(r"C\.\S+ 0->3 ok", r):
+                    out.append((5, "src SET"))
+            elif n == "rq.head":
+                mm = re.match(r"C\.\S+ \S+->(\S+) ok", r)
+                if mm and mm.group(1) in (comp, done):
+                    out.append((role(t), "rq ENQ " + ("COMP" if mm.group(1) == comp else "DONE")))
+                mm = re.match(r"X\.\S+ (\S+)->0", r)
+                if mm and mm.group(1) in (comp, done):
+                    out.append((1, "rq DEQ " + ("COMP" if mm.group(1) == comp else "DONE")))
+            elif n in ("!readv", "!writev") and r.startswith("iofd ") and started and t == 0:
+                mm = re.match(r"iofd rc=(-?\d+) (\S+)", r)
+                if self._mine(k, out):
+                    out.append((0, "!io ok" if int(mm.group(1)) >= 0 else "!io -1 " + mm.group(2)))
+            elif n == "!epoll_ctl" and " iofd" in r and started:
+                mm = re.match(r"(ADD|DEL) iofd .*rc=(-?\d+) (\S+)$", r)
+                if mm and self._mine(k, out) and (mm.group(1) == "DEL" or comp in r):
+                    out.append((role(t), "!%s %s" % (mm.group(1), mm.group(3))))
+            elif n == "!epoll_wait" and "->" in r and comp in r.split("->")[1].strip().split(","):
+                out.append((2, "!deliver"))
+            elif n == "!STALE" and (" " + comp + " ") in (" " + r + " "):
+                out.append((2, "!STALE"))
+            elif n in ("!write", "!read") and r.startswith("peerfd ") and t == peer_t and not peer_seen and k == 0:
+                mm = re.match(r"peerfd rc=(-?\d+)", r)
+                if int(mm.group(1)) > 0:
+                    out.append((4, "!peer")); peer_seen = True
+            elif n == "!complete" and r.startswith("op%d " % k):
+                w = r.split(" ")
+                out.append((0, "!complete " + (w[1] if w[1] != "error" else "error " + w[2])))
+        return out
+
+    def _mine(self, k, out):
+        """syscalls on the shared descriptor belong to operation k while it is the live one"""
+        done = any(e.startswith("!complete") for _, e in out)
+        return not done
+
+    def nontrivial(self, proj):
+        return len(proj) > 3 and Unit.nontrivial(self, proj)
+
+    def post_check(self, prog, summary, proj):
+        f = dict(kv.split("=", 1) for kv in summary.split(" ") if "=" in kv)
+        comp = [e for _, e in proj if e.startswith("!complete")]
+        want = ",".join(c[len("!complete "):] for c in comp)
+        if f.get("completed", "") != want:
+            return "model completions %r differ from the implementation's %r: %s" % (f.get("completed"), want, summary)
+        if VARIANT == "fixed":
+            for key in ("uaf", "stale", "crashed"):
+                if f.get(key) != "0":
+                    return "fixed model reports %s on an implementation trace: %s" % (key, summary)
+            if comp and f.get("reg") != "0":
+                return "fixed model: registration left at completion: " + summary
+        return None
